@@ -36,6 +36,13 @@ CLAIMED.update({
             "note": "PARTIAL: the store actor, redb and the update report of ZoneStore::insert are not encodable; that the store applies exactly this comparison is by reading."},
 })
 
+CLAIMED.update({
+    "C03": {"text": "Handshake verification kernels: key-material authentication succeeds only if the exporter material obtained with the claimed key as context has the passed-through suffix and the signature oracle accepts (claimed key, first 16 bytes of that material, client signature); challenge authentication only if the oracle accepts (claimed key, derive_key(domain, this challenge), client signature); the ClientAuth frame decodes to exactly the key/signature sent and only valid curve points are identities. All inputs symbolic.",
+            "note": "PARTIAL: serverside() as a whole calls rand::rng() (thread-local with destructor => kani-compiler ICE): the fall-through between mechanisms and the denial frame are by reading. Ed25519, BLAKE3 and the TLS exporter are uninterpreted oracles."},
+    "C07": {"text": "Guard kernel: a disconnect guard created for an admitted connection notifies the access policy exactly once - with the request's endpoint and connection id - when it is dropped (also after moves) and not before; a policy-less guard notifies nobody; connection ids are fresh and increasing.",
+            "note": "PARTIAL: authorize_with/accept/deny (deny => no guard) go through write_frame, which did not finish under CBMC (BytesMut growth / postcard io plumbing; async fns cannot be stubbed); the guard's life inside the connection actor is a tokio task. Both by reading."},
+})
+
 NA_WALL12 = "needs live tokio tasks/timers/channels (thread-locals with destructors make kani-compiler 0.68 ICE; Kani does not model concurrency): no decisive kernel can be symbolically executed"
 PENDING = "harness not built yet in this revision (planned, DESIGN.md section 4); not claimed until its check exists and passes"
 NOT_APPLICABLE = {
@@ -57,6 +64,6 @@ NOT_APPLICABLE = {
 }
 NOT_APPLICABLE["C15"] = "the only decisive synchronous kernel (pop_family) works on a VecDeque: VecDeque::remove at a symbolic index exhausts CBMC (26 GB at 2 elements) and even fully concrete 2-3 element queues did not finish in 15 min; the dialing loop itself is tokio timers/TcpStream/select!"
 NOT_APPLICABLE["C20"] = "Builder::bind_addr_with_opts takes the Builder by value: its drop glue statically reaches thread-locals with destructors (DNS resolver / tokio), which makes kani-compiler 0.68 panic (intrinsics.rs:243) for any harness that reaches the function, even with an uninitialised Builder; the order dependence found by reading was repaired (see DESIGN section 5) but is not decided by a check"
-for _p in ["C01","C03","C07","C12","C13","C17","C22","C23","C24","C29","C30","C31","C42"]:
+for _p in ["C01","C12","C13","C17","C22","C23","C24","C29","C30","C31","C42"]:
     NOT_APPLICABLE.setdefault(_p, PENDING)
 
